@@ -97,6 +97,14 @@ def check(kind, case, rec):
         mesh = fem.Mesh(newpts, perm[np.asarray(mesh.cells)], mesh.cell_type)
         pts = newpts
         rec.label("points-renumbered")
+    if (case["sseed"] // 3 + spec["n"][-1]) % 4 == 0:
+        # a point without cells somewhere in the numbering (a control point, the leftover of a removed cell): masks and point ids
+        # count ALL points of the mesh
+        k_ = int(np.random.default_rng(case["sseed"] + 5).integers(0, len(pts)))
+        pts = np.insert(pts, k_, pts.mean(0), axis=0)
+        cells_ = np.asarray(mesh.cells)
+        mesh = fem.Mesh(pts, np.where(cells_ >= k_, cells_ + 1, cells_), mesh.cell_type)
+        rec.label("mesh-with-a-point-without-cells")
     ncell = mesh.ncells
     rec.nontrivial = max(spec["n"]) >= 3 and (case["surf"] > 0 or spec["curve"] > 0 or spec["jitter"] > 0)
     rv = gm.region(mesh, info)
